@@ -348,11 +348,11 @@ theorem writeDelimited_spec (c : Chan) (payload : Bytes) (h : ChanWF c) :
     · trivial
     · simp only [h2d, h1d, h0d, frame]
 
-theorem tryReadTail_spec (c : Chan) :
-    ChanStep c c.tryReadTail.1 ∧ c.tryReadTail.1.back = c.back ∧
-    c.tryReadTail.1.front.data = c.front.data ∧
-    (c.tryReadTail.2 = .ok none ∨ c.tryReadTail.2 = .error .bufferFull) := by
-  unfold Chan.tryReadTail
+theorem tryReadTailCore_spec (c : Chan) :
+    ChanStep c c.tryReadTailCore.1 ∧ c.tryReadTailCore.1.back = c.back ∧
+    c.tryReadTailCore.1.front.data = c.front.data ∧
+    (c.tryReadTailCore.2 = .ok none ∨ c.tryReadTailCore.2 = .error .bufferFull) := by
+  unfold Chan.tryReadTailCore
   split
   · split
     · exact ⟨ChanStep.refl c, rfl, rfl, Or.inr rfl⟩
@@ -363,6 +363,24 @@ theorem tryReadTail_spec (c : Chan) :
       | none => simp
       | some n => have := growSize_some c _ _ hg; simp; omega
   · exact ⟨ChanStep.refl c, rfl, rfl, Or.inl rfl⟩
+
+theorem reclaimIfFull_spec (c : Chan) :
+    ChanStep c c.reclaimIfFull ∧ c.reclaimIfFull.back = c.back ∧
+    c.reclaimIfFull.front.data = c.front.data := by
+  unfold Chan.reclaimIfFull
+  split
+  · exact ⟨ChanStep.setFront _ _ (wf_shift _) (by rw [shift_cap]; exact Nat.le_max_left _ _), rfl,
+      shift_data _⟩
+  · exact ⟨ChanStep.refl c, rfl, rfl⟩
+
+theorem tryReadTail_spec (c : Chan) :
+    ChanStep c c.tryReadTail.1 ∧ c.tryReadTail.1.back = c.back ∧
+    c.tryReadTail.1.front.data = c.front.data ∧
+    (c.tryReadTail.2 = .ok none ∨ c.tryReadTail.2 = .error .bufferFull) := by
+  obtain ⟨a1, a2, a3⟩ := reclaimIfFull_spec c
+  obtain ⟨b1, b2, b3, b4⟩ := tryReadTailCore_spec c.reclaimIfFull
+  unfold Chan.tryReadTail
+  exact ⟨a1.trans b1, b2.trans a2, b3.trans a3, b4⟩
 
 /-- the result of `try_read_delimited_message`, case by case -/
 inductive ReadCase (dec : Bytes → Bool) (c : Chan) : Chan × Except Err (Option Bytes) → Prop
@@ -381,20 +399,33 @@ inductive ReadCase (dec : Bytes → Bool) (c : Chan) : Chan × Except Err (Optio
   | invalid (c' : Chan) (len : Nat) (h8 : delim ≤ c.front.data.length)
       (hlen : len = decodeLE (c.front.data.take delim)) (hlo : delim ≤ len) (hmax : len ≤ c.max)
       (hhi : len ≤ c.front.data.length) (hdec : dec ((c.front.data.take len).drop delim) = false)
-      (hsame : c' = c) : ReadCase dec c (c', .error .invalid)
+      (hdata : c'.front.data = c.front.data.drop len) : ReadCase dec c (c', .error .invalid)
   | incomplete (c' : Chan) (r : Except Err (Option Bytes))
       (hinc : c.front.data.length < delim ∨
         (decodeLE (c.front.data.take delim) ≤ c.max ∧ delim ≤ decodeLE (c.front.data.take delim) ∧
           c.front.data.length < decodeLE (c.front.data.take delim)))
-      (hr : r = .ok none ∨ (r = .error .bufferFull ∧ c.front.availSpace = 0 ∧ c.max ≤ c.front.cap))
+      (hr : r = .ok none ∨ (r = .error .bufferFull ∧ c.max ≤ c.front.data.length))
       (hdata : c'.front.data = c.front.data) : ReadCase dec c (c', r)
 
-theorem tryReadTail_full (c : Chan) (h : c.tryReadTail.2 = .error .bufferFull) :
-    c.front.availSpace = 0 ∧ c.max ≤ c.front.cap := by
-  unfold Chan.tryReadTail at h
+theorem tryReadTail_full (c : Chan) (hwf : ChanWF c) (h : c.tryReadTail.2 = .error .bufferFull) :
+    c.max ≤ c.front.data.length := by
+  unfold Chan.tryReadTail Chan.tryReadTailCore at h
+  obtain ⟨h1, h2, h3⟩ := hwf.1
   split at h
-  · split at h
-    · constructor <;> assumption
+  · next hsp =>
+    split at h
+    · next hcap =>
+      by_cases h0 : c.front.availSpace = 0
+      · have hrc : c.reclaimIfFull = { c with front := c.front.shift } := by
+          simp [Chan.reclaimIfFull, h0]
+        rw [hrc] at hsp hcap
+        have hs := shift_space c.front hwf.1
+        have hc := shift_cap c.front
+        change c.front.shift.availSpace = 0 at hsp
+        change c.front.shift.cap ≥ c.max at hcap
+        omega
+      · have hrc : c.reclaimIfFull = c := by simp [Chan.reclaimIfFull, h0]
+        rw [hrc] at hsp; contradiction
     · cases h
   · cases h
 
@@ -408,7 +439,7 @@ theorem tryRead_cases (dec : Bytes → Bool) (c : Chan) (h : ChanWF c) :
     refine ReadCase.incomplete _ _ hinc ?_ td
     rcases tr with tr | tr
     · exact Or.inl tr
-    · exact Or.inr ⟨tr, tryReadTail_full c tr⟩
+    · exact Or.inr ⟨tr, tryReadTail_full c h tr⟩
   unfold Chan.tryRead
   simp only [slice, List.drop_zero]
   split
@@ -428,8 +459,8 @@ theorem tryRead_cases (dec : Bytes → Bool) (c : Chan) (h : ChanWF c) :
             refine ⟨ChanStep.setFront _ _ (wf_consume _ _) (by rw [consume_cap]; exact Nat.le_max_left _ _), rfl, ?_⟩
             exact ReadCase.msg _ _ h8 rfl (Nat.le_of_not_lt hu) (Nat.le_of_not_lt hle) hl hd (consume_data _ _ h.1)
           · next hd =>
-            refine ⟨ChanStep.refl c, rfl, ?_⟩
-            exact ReadCase.invalid _ _ h8 rfl (Nat.le_of_not_lt hu) (Nat.le_of_not_lt hle) hl (by simpa using hd) rfl
+            refine ⟨ChanStep.setFront _ _ (wf_consume _ _) (by rw [consume_cap]; exact Nat.le_max_left _ _), rfl, ?_⟩
+            exact ReadCase.invalid _ _ h8 rfl (Nat.le_of_not_lt hu) (Nat.le_of_not_lt hle) hl (by simpa using hd) (consume_data _ _ h.1)
         · next hl =>
           exact ⟨ts, tb, tail_case (Or.inr ⟨Nat.le_of_not_lt hle, Nat.le_of_not_lt hu, Nat.lt_of_not_le hl⟩)⟩
   · next h8 => exact ⟨ts, tb, tail_case (Or.inl (Nat.lt_of_not_le h8))⟩
@@ -1056,10 +1087,11 @@ theorem read_complete (dec : Bytes → Bool) (c : Chan) (p R : Bytes) (h : ChanW
   | incomplete c' r hinc _ _ =>
     rcases hinc with hinc | ⟨_, _, hinc⟩ <;> omega
 
-/-- `BufferFull` needs an incomplete head frame in a full buffer at the ceiling -/
+/-- after the fix, `BufferFull` needs an incomplete head frame although the
+    pending data alone already fills the ceiling -/
 theorem bufferFull_shape (dec : Bytes → Bool) (c : Chan) (h : ChanWF c)
     (hr : (c.readMessage dec).2 = .error .bufferFull) :
-    c.front.availSpace = 0 ∧ c.max ≤ c.front.cap ∧
+    c.max ≤ c.front.data.length ∧
     (c.front.data.length < delim ∨ (decodeLE (c.front.data.take delim) ≤ c.max ∧
       c.front.data.length < decodeLE (c.front.data.take delim))) := by
   obtain ⟨_, _, _, hr', hc⟩ := readMessage_cases dec c h
@@ -1071,9 +1103,9 @@ theorem bufferFull_shape (dec : Bytes → Bool) (c : Chan) (h : ChanWF c)
   | tooLarge => cases hr
   | invalid => cases hr
   | incomplete c' r hinc hr'' _ =>
-    rcases hr'' with hr'' | ⟨_, h1, h2⟩
+    rcases hr'' with hr'' | ⟨_, h1⟩
     · rw [hr''] at hr; cases hr
-    · refine ⟨h1, h2, ?_⟩
+    · refine ⟨h1, ?_⟩
       rcases hinc with hinc | ⟨a, _, b⟩
       · exact Or.inl hinc
       · exact Or.inr ⟨a, b⟩
